@@ -67,7 +67,7 @@ def generate(rng, tier):
             for deferred in (False, True):
                 for dur, sync in ((200_000, False), (0, True)) if si % 2 == 0 else ((2_000_000, False), (0, False)):
                     yield {"tasks": [mk_task(*combo, dur=dur, sync=sync)], "steps": script, "deferred": deferred}
-    n = 400 if tier == "quick" else 6000
+    n = 1500 if tier == "quick" else 20000
     for _ in range(n):
         nt = rng.randint(1, 4)
         tasks = []
@@ -242,6 +242,7 @@ def oracle(case, out):
     spawned = [set() for _ in range(n)]
     lost = [False] * n                       # restart task lost its connection and nothing started it since
     expect_spawn = {}                        # i -> number of spawns seen since the reconnection
+    may_spawn = [0] * n                      # spawns owed to task i: one per start_task, one per reconnection of a restart task
     conn_ok = [False] * n                    # connected at some moment since the generation was spawned / last left its target
     evs = [e.split(",") for e in out.split(";")] if out else []
 
@@ -265,6 +266,7 @@ def oracle(case, out):
             dead[i] |= spawned[i]
             registered[i] = True
             lost[i] = False
+            may_spawn[i] += 1
         elif k == "R":
             i = int(e[1])
             dead[i] |= spawned[i]
@@ -287,6 +289,7 @@ def oracle(case, out):
                         dead[i] |= spawned[i]
                         if c == 2:
                             expect_spawn[i] = 0
+                            may_spawn[i] += 1
                             lost[i] = False
                         else:
                             lost[i] = True
@@ -294,6 +297,10 @@ def oracle(case, out):
             i, g = int(e[1]), int(e[2])
             spawned[i].add(g)
             conn_ok[i] = connected
+            may_spawn[i] -= 1
+            if may_spawn[i] < 0:
+                return (f"task {i} got a new asyncio task (generation {g}) that neither start_task nor a reconnection of a "
+                        f"restart_after_reconnect task asked for (event #{idx})")
             if i in expect_spawn:
                 expect_spawn[i] += 1
         elif k == "E":
